@@ -127,6 +127,7 @@ def run_profile(ctx, gen, n, config='default', claims=None, extra_oracle=None, t
                 # likewise a refresh that is ACCEPTED where it had to be refused belongs to C08 / C17: the reference semantics
                 # leaves the key as it was, and what the (now different) key opens afterwards is still judged by the key's policy
                 if got == 'OK' and a == 'ERR' and scr[ln].split(' ')[0] == 'RF': continue
+                if scr[ln].split(' ')[0] == 'AP': continue       # a pure observation (policy -> rights): changes no state
                 break
         for (ln, prop, what) in hist.generic_oracles(scr, out):
             if prop == ctx.prop: hits.append((h, ln, what, None))
@@ -152,6 +153,7 @@ def run_profile(ctx, gen, n, config='default', claims=None, extra_oracle=None, t
                         if claims is None or claims(c[ln2].split(' ')[0], a2, g2): return True
                         if g2 == 'RTFAIL' and a2 == 'OK': continue
                         if g2 == 'OK' and a2 == 'ERR' and c[ln2].split(' ')[0] == 'RF': continue
+                        if c[ln2].split(' ')[0] == 'AP': continue
                         break
             gv = [w for (_, p, w) in hist.generic_oracles(c, out) if p == ctx.prop]
             if gv and 'expected' not in what: return True
@@ -196,7 +198,14 @@ def run_profile(ctx, gen, n, config='default', claims=None, extra_oracle=None, t
             names = [(bytes.fromhex(dd[1:]).decode(), bytes.fromhex(aa[1:]).decode()) for (dd, aa) in atts]
             pols = [f'{d}::{a}' for d, a in names] + [f'{d}::{a} && {d2}::{a2}' for i, (d, a) in enumerate(names) for (d2, a2) in names[i + 1:] if d2 != d]
             suf = [f'EN {nm - 1} {hist.x(q)}' for q in pols[:24]]
-            suf += [f'DE {k} {j}' for k in range(nk) for j in range(ne + len(suf))][:160]
+            # the policy of the disagreeing operation itself (policy -> rights observation, key generation, encapsulation) is
+            # used both ways: a key for it against everything, an encapsulation for it against every key
+            f0 = pre[-1].split(' '); pol0 = f0[1] if f0[0] in ('AP', 'KG') and len(f0) > 1 else f0[2] if f0[0] == 'EN' and len(f0) > 2 else None
+            nk2 = nk
+            if pol0 is not None:
+                suf = [f'KG {pol0}', f'EN {nm - 1} {pol0}'] + suf + [f'KG {hist.x(q)}' for q in pols[:8]]; nk2 = nk + 1 + len(pols[:8])
+            ne2 = ne + sum(1 for l in suf if l.startswith('EN '))
+            suf += [f'DE {k} {j}' for k in range(nk2) for j in range(ne2)][:400]
             probes.append(pre + suf)
         if probes:
             _, _, _, _, phits = run_profile(ctx, None, 0, config=config, claims=claims, extra_oracle=extra_oracle, trigger=None, label='directed search from disagreeing histories', model_check=False, histories=probes)
